@@ -129,6 +129,11 @@ def check(repo, res, tier):
                 'resume does not advance the clock exactly once')
     else:
         res.ok('C11.U2', resume, resume.node, 'resume only calls env.run(until=...)')
+    from . import initial
+    res.rule('C11.U9', 'initial state: a new simulation is not running')
+    initial.check_values(repo, res, 'C11.U9', [('Simulation', 'running', False)],
+                         {('Simulation', 'running'): 'start() refuses at once and resume() runs a simulation no process was '
+                                                     'registered for'})
     # ---- U8: what start() does after the clock has stopped -------------------
     res.rule('C11.U8', 'after env.run has returned, start() only reports (collate, tables, output file): it changes no actor, '
                        'so a pause is invisible to the resumed run')
